@@ -134,6 +134,7 @@ class Nea(_SecStream):
 class Nia(_SecStream):
     name = "nia"
     sub = "nia"
+    retained_field = "mac"
     field = "mac"
     model_check = "nia_check"
     model_out = "nia_expected"
